@@ -430,3 +430,94 @@ def set_backref_model(pid):
 
 
 UIDF = z3.Function('uid_of_idx', K, I)
+
+
+def collect_ref_links(pid):
+    """System.collect_ref, from its second loop on (the lists were emptied before): for every referring model with devices, every
+    index parameter whose target model / group exists and has devices, every requested name (the referrer's class name or its group)
+    and every device k of the referrer: set_backref(name, from_idx=idx[k], to_idx=<the parameter's entry k>) is called exactly once
+    when that entry is a registered idx of the target -- whatever the entry is (0 and '' are ordinary indices) -- and not at all when
+    it is not registered."""
+    from pyvc.symval import Mark
+    EM = 'models_and_groups.$e'
+    EP = EM + '.idx_params.$e'
+
+    def contains(ex, st, args, kw, node):
+        cont, item = args
+        if isinstance(cont, Mark) and cont.kind == 'services_ref':
+            b = fresh('backref_requested', Bo)
+            return b
+        if isinstance(cont, Mark) and cont.kind in ('models', 'groups'):
+            return fresh('target_exists_in_' + cont.kind, Bo)
+        raise Unsupported('membership test on %r' % (cont,))
+
+    def objdict(ex, st, args, kw, node):
+        return Obj('dest')
+
+    def set_backref(ex, st, args, kw, node):
+        ok = len(args) == 1 and set(kw) == {'from_idx', 'to_idx'}
+        st.ghost['calls'] = st.ghost['calls'] + [(args[0] if args else None, kw.get('from_idx'), kw.get('to_idx'), bool(ok))]
+        return None
+
+    def reset(v):
+        v.st.ghost['calls'] = []
+        v.st.ghost['in_iter'] = True
+        return True
+
+    def pair(v):
+        g = v.st.ghost
+        if not g.get('in_iter'):
+            return True
+        i = v.local('$i5') - 1          # the pair just processed
+        midx = v.st.content(v.st.load(EM + '.idx.v'))
+        pidx = v.st.content(v.st.load(EP + '.v'))
+        uid = v.st.content(v.st.load('dest.uid'))
+        registered = uid.dom[pidx.arr[i]]
+        calls = g['calls']
+        if len(calls) == 0:
+            return z3.Not(registered)
+        if len(calls) != 1 or not calls[0][3]:
+            return False
+        nm, fr, to = calls[0][0], calls[0][1], calls[0][2]
+        same_name = nm is v.st.env['name'] or (isinstance(nm, Opaque) and isinstance(v.st.env['name'], Opaque) and nm.term.eq(v.st.env['name'].term))
+        if not same_name or not isinstance(fr, Opaque) or not isinstance(to, Opaque):
+            return False
+        return z3.And(registered, fr.term == midx.arr[i], to.term == pidx.arr[i])
+    c = Contract(FS, 'System.collect_ref', pid=pid, params={'self': TObj()},
+                 schema={'models_and_groups': TColl(), EM + '.n': TInt(), EM + '.idx_params': TColl(), EM + '.class_name': TStr(), EM + '.group': TStr(),
+                         EM + '.idx.v': TSeq(K), EP + '.model': TStr(), EP + '.v': TSeq(K), 'dest.n': TInt(), 'dest.uid': TMap(K, I)},
+                 ghost_init={'calls': []},
+                 calls={'hasattr': lambda ex, st, a, k, n: True, '__contains__': contains, '__objdict__': objdict, '__getitem__': lambda ex, st, a, k, n: (Obj('dest') if isinstance(a[0], tuple) and a[0] and a[0][0] == 'objdict' else NotImplemented),
+                        'dest.set_backref': set_backref, 'isinstance:Model': lambda ex, st, a, k, n: fresh('is_model', Bo),
+                        EM + '.set_in_use': lambda ex, st, a, k, n: None},
+                 globals_={'hasattr': Func('hasattr')},
+                 loops={2: Loop(inv=[], frame=['$model', '$idxp', '$dest', '$name', '$model_idx', '$dest_idx', EM + '.*', 'dest.*']),
+                        3: Loop(inv=[], frame=['$idxp', '$dest', '$name', '$model_idx', '$dest_idx', EP + '.*', 'dest.*']),
+                        5: Loop(inv=[('a-registered-target-entry-gets-exactly-one-back-reference-from-the-referring-device;an-unregistered-one-none', pair)],
+                                assume=[('reset', reset)], frame=['$model_idx', '$dest_idx'])},
+                 ensures=[], modifies=['dest.*'])      # 'dest' stands for a different target in every iteration (modelling device, not a write)
+    c.body_from = 'for model in models_and_groups:\n    if model.n == 0'
+    c.locals = {'models_and_groups': TColl()}
+    c.properties = {'self.models': lambda ex, st: Mark('models'), 'self.groups': lambda ex, st: Mark('groups'),
+                    'dest.services_ref': lambda ex, st: Mark('services_ref')}
+    c.merge = False
+    c.check_bounds = False
+
+    def pre_state(st):
+        st.ghost.pop('in_iter', None)
+    c.pre_state = pre_state
+    return c
+
+
+def replay_collect_ref(obligation=None, model=None, meta=None):
+    """native: back-reference lists against the exact inverse relation (contracts/bounded_backref.py: stock cases and registries with
+    zero-based numeric indices)"""
+    from contracts import bounded_backref
+    r = bounded_backref.run()
+    n, bad = r[0], r[1]
+    if bad:
+        first = bad[0] if isinstance(bad, list) else bad
+        return {'confirmed': True, 'inputs': first, 'observed': str(first)[:300], 'native_cmd': 'contracts/bounded_backref.py'}
+    return {'confirmed': False, 'tried': n}
+
+replay_collect_ref.real_system = True       # drives the real program on stock inputs: a crash inside repository code is a confirmed failure
